@@ -208,3 +208,63 @@ func underErrorAssert(b *ssa.BasicBlock, r ssa.Value) bool {
 	}
 	return false
 }
+
+// astFreshRule: the AST handed out by GetAST() is not the stored one.
+func astFreshRule(R string) RuleFunc {
+	return func(c *core.Ctx) {
+		c.Rule(R, "the AST node a public GetAST() returns is built for the call (a composite literal, or the result of a copying function): it is not the node kept in a field of the schema object nor the cached result of a once wrapper. An ASTNode is a struct with a Children slice and a Rules pointer - handing out the stored one shares both with every later caller, so a caller that edits what it got (appends a child, sets a rule) changes what the next GetAST() and the OpenAPI conversion see")
+		c.Floor(R, 3)
+		for _, fn := range []string{"(*notations/jschema.JSchema).GetAST", "(*notations/regex.RSchema).GetAST", "(*rules/enum.Enum).GetAST"} {
+			d := c.P.FindDecl(fn)
+			if d == nil {
+				c.Unresolved(R, fn)
+				continue
+			}
+			var classify func(hd *core.DeclSite, depth int) string
+			classify = func(hd *core.DeclSite, depth int) string {
+				recv := ""
+				if hd.Decl.Recv != nil && len(hd.Decl.Recv.List) == 1 && len(hd.Decl.Recv.List[0].Names) == 1 {
+					recv = hd.Decl.Recv.List[0].Names[0].Name
+				}
+				worst := ""
+				ast.Inspect(hd.Decl.Body, func(n ast.Node) bool {
+					if _, isLit := n.(*ast.FuncLit); isLit {
+						return false
+					}
+					r, ok := n.(*ast.ReturnStmt)
+					if !ok || len(r.Results) == 0 {
+						return true
+					}
+					switch x := ast.Unparen(r.Results[0]).(type) {
+					case *ast.CompositeLit:
+					case *ast.Ident:
+						// a local that was built here
+					case *ast.SelectorExpr:
+						if id, isID := x.X.(*ast.Ident); isID && id.Name == recv {
+							worst = "returns the stored node " + core.ExprStr(x)
+						}
+					case *ast.CallExpr:
+						f := core.ExprStr(x.Fun)
+						switch {
+						case strings.HasSuffix(f, "Once.Do"):
+							worst = "returns the cached result of " + f
+						case strings.HasSuffix(f, ".Copy") || strings.HasSuffix(f, "copyASTNode"):
+						case depth < 2:
+							if g, isF := core.Callee(hd.Pkg, x).(interface{ FullName() string }); isF {
+								if sub := c.P.FindDecl(core.Rel(g.FullName())); sub != nil && sub.Decl.Body != nil {
+									if w := classify(sub, depth+1); w != "" {
+										worst = w
+									}
+								}
+							}
+						}
+					}
+					return true
+				})
+				return worst
+			}
+			w := classify(d, 0)
+			c.Check(w == "", R, fn, c.P.Pos(d.Decl.Pos()), fn+" hands out a node built for the call", w+": its Children slice and Rules map are shared with every other caller and with the schema object")
+		}
+	}
+}
